@@ -5,7 +5,8 @@ from .. import core, wire
 PROP = "C19"
 MODULE = "GmqttVerif.Properties.C19"
 THEOREMS = ["GmqttVerif.Auth." + t for t in
-            ["validate_iff", "connect_decision", "connect_phase_closed", "first_connect", "accounts_refine_map", "load_save",
+            ["validate_iff", "connect_decision", "connect_phase_closed", "empty_method_fails_closed", "branches_partition",
+             "accepted_passed_exactly_one", "first_connect", "accounts_refine_map", "load_save",
              "restart_after_history", "update_takes_effect", "delete_takes_effect", "f39_witness", "preauth_inert",
              "rejected_inert", "run_inert"]]
 COMPS = ["authbroker"]
@@ -162,7 +163,7 @@ def gen(rng):
     n_conn, pid, tagn = 0, 0, 0
     fail = False
 
-    def connect(u, p):
+    def connect(u, p, force_am=None):
         """one CONNECT attempt; through `conn` when the bytes fit its token syntax, otherwise dial + raw.
         returns (name, version, the script's own expectation)"""
         nonlocal n_conn
@@ -172,10 +173,12 @@ def gen(rng):
         if p is not None: p = p[:65535]
         v = rng.choice([3, 4, 5, 5])
         am = ad = None
-        if v == 5 and rng.random() < 0.3:
-            am = rng.choice([b"M", b"M", b"SCRAM", b"M"])
-            # challenge/response ("c") rarely: on the unpatched tree each one costs two write timeouts (3 s) and a retry
-            ad = rng.choice([b"go", b"zz", b"go"] + ([b"c", b"c"] if rng.random() < 0.2 else []))
+        if force_am is not None:
+            v, am, ad = 5, force_am, rng.choice([None, None, b"go", b"c"])
+        elif v == 5 and rng.random() < 0.35:
+            # b"" = the Authentication Method property PRESENT with a zero-length value (0x15 0x00 0x00): still "a method"
+            am = rng.choice([b"M", b"M", b"SCRAM", b"M", b"", b""])
+            ad = rng.choice([b"go", b"zz", b"go", None] + ([b"c", b"c"] if rng.random() < 0.2 else []))
         if (u is None and p is not None) and v != 5 and rng.random() < 0.7:
             v = 5
         simple = (u is None or plain_tok(u)) and (p is None or plain_tok(p)) and rng.random() < 0.8
@@ -184,7 +187,7 @@ def gen(rng):
         extra = ""
         if u is not None: extra += f" user={tok(u)}"
         if p is not None: extra += f" pass={tok(p)}"
-        if am is not None: extra += f" am={am.decode()} ad={ad.decode()}"
+        if am is not None: extra += f" am={am.decode()}" + (f" ad={ad.decode()}" if ad is not None else "")
         if am is not None:
             want = bool(enh and am == b"M" and ad == b"go")
         else:
@@ -297,6 +300,12 @@ def gen(rng):
             else:
                 ops.append(f"raw {name} ff00 k=garbage")
             ops.append("api state")
+        elif r < 0.66:
+            # the present-but-empty Authentication Method with every credential combination: must fail closed
+            valid = next(((a, accts[a]) for a in sorted(accts)), (b"alice", b"secret"))
+            for u, p in [(None, None), (b"nobody", b"x"), (valid[0], valid[1] + b"!"), valid]:
+                if rng.random() < 0.75:
+                    connect(u, p, force_am=b"")
         else:
             # a CONNECT: valid, near miss, or unknown
             if accts and rng.random() < 0.85:
